@@ -74,6 +74,8 @@ def gen_case(rng):
         tot = max(sum(sum(c["dur"]) for c in case["calls"]), 1.0)
         case["timeout"] = round(2 * tot + rng.choice([1.0, 5.0, 30.0, 300.0]), 3)
     case["strategy"] = ds.draw_strategy(rng)
+    if case.get("timeout") is not None:
+        case["strategy"].pop("p_jump", None)      # the timeout oracle bounds simulated time (see C16)
     case["sched_seed"] = rng.randrange(1 << 31)
     return case
 
